@@ -496,8 +496,15 @@ inline float atof(const char *nptr) {
 inline float stof(const std::string &value, size_t *pos = nullptr) {
   const char *str_source = value.c_str();
   char *endptr;
+  // only a range error raised by this conversion counts, not a stale errno
+  const int saved_errno = errno;
+  errno = 0;
   const float parsed_value = dmlc::strtof_check_range(str_source, &endptr);
-  if (errno == ERANGE && parsed_value == std::numeric_limits<float>::infinity()) {
+  const bool range_error = (errno == ERANGE);
+  if (!range_error) {
+    errno = saved_errno;
+  }
+  if (range_error && parsed_value == std::numeric_limits<float>::infinity()) {
     throw std::out_of_range("Out of range value");
   } else if (const_cast<const char *>(endptr) == str_source) {
     throw std::invalid_argument("No conversion could be performed");
@@ -526,8 +533,15 @@ inline float stof(const std::string &value, size_t *pos = nullptr) {
 inline double stod(const std::string &value, size_t *pos = nullptr) {
   const char *str_source = value.c_str();
   char *endptr;
+  // only a range error raised by this conversion counts, not a stale errno
+  const int saved_errno = errno;
+  errno = 0;
   const double parsed_value = dmlc::strtod_check_range(str_source, &endptr);
-  if (errno == ERANGE && parsed_value == std::numeric_limits<double>::infinity()) {
+  const bool range_error = (errno == ERANGE);
+  if (!range_error) {
+    errno = saved_errno;
+  }
+  if (range_error && parsed_value == std::numeric_limits<double>::infinity()) {
     throw std::out_of_range("Out of range value");
   } else if (const_cast<const char *>(endptr) == str_source) {
     throw std::invalid_argument("No conversion could be performed");
